@@ -143,3 +143,64 @@ Proof.
   - intros jd ijv DR Hi. exact (HJ name _ text jd ijv E DR Hi).
   - intros Hk ijv Hi. apply (HJ name _ text _ ijv E); [|exact Hi]. apply datarel_map; [exact Hcore|exact Hk].
 Qed.
+
+(* ---- a registry of several files ---- *)
+(* a file: name of the source file, namespace, the namespace's autoescape mode, its templates *)
+Record c04_file := { cfl_name : bstr; cfl_ns : bstr; cfl_ae : N; cfl_tmpls : list ctmpl }.
+Definition c04_all_tmpls (fs : list c04_file) : list ctmpl := flat_map cfl_tmpls fs.
+(* the function table of an engine that has loaded the generated file of every file of the registry: each file's table
+   starts from counter 0 (soyjs.Write makes a new scope per file) *)
+Definition c04_all_jprog (fs : list c04_file) : list (bstr * (bool * jblk)) := flat_map (fun f => c04_jprog_chain (cfl_tmpls f) 0) fs.
+
+Lemma c04_find_app p1 p2 name : c04_find (p1 ++ p2) name = match c04_find p1 name with Some t => Some t | None => c04_find p2 name end.
+Proof. induction p1 as [|x r IH]; [reflexivity|]. cbn [app c04_find]. destruct (bstr_eqb (ct_name x) name); [reflexivity|exact IH]. Qed.
+Lemma c04_assoc_app {A} (l1 l2 : list (bstr * A)) name : assoc_s name (l1 ++ l2) = match assoc_s name l1 with Some v => Some v | None => assoc_s name l2 end.
+Proof. induction l1 as [|[k v] r IH]; [reflexivity|]. cbn [app]. unfold assoc_s; fold (@assoc_s A). destruct (bstr_eqb name k); [reflexivity|exact IH]. Qed.
+Lemma c04_chain_none p name : c04_find p name = None -> forall n, assoc_s name (c04_jprog_chain p n) = None.
+Proof.
+  induction p as [|x r IH]; intros Ef n; [reflexivity|]. cbn [c04_find] in Ef.
+  unfold c04_jprog_chain. cbn [c04_chain map fst snd]. unfold assoc_s; fold (@assoc_s (bool * jblk)).
+  rewrite (bstr_eqb_sym name (ct_name x)). destruct (bstr_eqb (ct_name x) name); [discriminate|]. exact (IH Ef _).
+Qed.
+Lemma c04_all_jprog_ok fs : c04_table_ok (c04_all_tmpls fs) (c04_all_jprog fs).
+Proof.
+  induction fs as [|f r IH]; intros name t Ef; [discriminate|].
+  unfold c04_all_tmpls, c04_all_jprog in *. cbn [flat_map] in *. rewrite c04_find_app in Ef. rewrite c04_assoc_app.
+  destruct (c04_find (cfl_tmpls f) name) as [t0|] eqn:E0.
+  - inversion Ef; subst t0. destruct (c04_jprog_chain_ok (cfl_tmpls f) 0 name t E0) as (n & ->). exists n. reflexivity.
+  - rewrite (c04_chain_none _ _ E0). exact (IH name t Ef).
+Qed.
+
+(* the registry theorem: every file's generated text is its printed function table, and in the union of these tables the
+   function of every template returns what Renderer.Execute writes (calls across files included) *)
+Theorem gen_registry_correct_partial cf o fs F :
+  c_oblig cf = [] -> (forall x, c_ij cf = Some x -> core_value x = true) -> r_templates (c_reg cf) = c04_templates (c04_all_tmpls fs) ->
+  cn_ok o -> c04_imp_free o -> o_msgs o = None ->
+  (forall f, In f fs -> forall t, In t (cfl_tmpls f) -> ct_ns_ae t = cfl_ae f /\ (S (S (bdepth (ct_body t))) < F)%nat /\ bwf [] (ct_body t) = true) ->
+  (0 < F)%nat ->
+  let p := c04_all_tmpls fs in
+  let jp := c04_all_jprog fs in
+  (forall f, In f fs ->
+     gen_file o F (cfl_name f) (c04_file_nodes (cfl_ns f) (cfl_ae f) (cfl_tmpls f))
+     = Ok (c04_file_header (cfl_name f) ++ c04_ns_lines (cfl_ns f) ++ c04_table_chunks o (c04_jprog_chain (cfl_tmpls f) 0)))
+  /\ forall k name t data_id data first_id text fuel,
+       c04_find p name = Some t ->
+       template_mode (entry_mode (ct_ns_ae t)) (ct_ae t) = ct_mode t ->
+       forallb (fun kv => core_value (snd kv)) data = true ->
+       c04_tout (c_ij cf) go_print_text p (S k) name (fun q => assoc_s q data) = Some text ->
+       (S k * c04_D p <= fuel)%nat ->
+       (let r := render cf fuel name data_id data None None first_id in
+        rr_outcome r = Ok tt /\ concat_b (rr_writes r) = text)
+       /\ (forall jd ijv, datarel (fun q => assoc_s q data) jd -> (forall v, c_ij cf = Some v -> ijv = to_js v) ->
+             c04_jcall jp (S k) name jd ijv = Ok text)
+       /\ (forallb (fun kv => is_ident (fst kv)) data = true -> forall ijv, (forall v, c_ij cf = Some v -> ijv = to_js v) ->
+             c04_jcall jp (S k) name (to_js (VMap data_id data)) ijv = Ok text).
+Proof.
+  intros Hob Hij Hreg HCN HIF HNB Hall HF p jp. split.
+  - intros f Hf. exact (gen_file_chunks o HCN HNB (cfl_name f) (cfl_ns f) (cfl_ae f) F (cfl_tmpls f) HIF (Hall f Hf) HF).
+  - intros k name t data_id data first_id text fuel Ef Hm Hcore E Hfu.
+    pose proof (js_call_correct_tbl cf p Hij jp (c04_all_jprog_ok fs) (S k)) as HJ.
+    split; [exact (go_render_correct cf p Hob Hij Hreg k name t data_id data first_id text fuel Ef Hm Hcore E Hfu)|]. split.
+    + intros jd ijv DR Hi. exact (HJ name _ text jd ijv E DR Hi).
+    + intros Hk ijv Hi. apply (HJ name _ text _ ijv E); [|exact Hi]. apply datarel_map; [exact Hcore|exact Hk].
+Qed.
